@@ -70,6 +70,13 @@ type psCase struct {
 	Exp    psExp     `json:"exp"`
 	C      *psScript `json:"c,omitempty"`
 	Status int       `json:"status,omitempty"`
+	Hides  *psHides  `json:"hides,omitempty"`
+}
+
+// psHides: which element-hiding rules the served content script carries
+type psHides struct {
+	Specific bool `json:"specific"`
+	Generic  bool `json:"generic"`
 }
 
 var psTypeModifier = map[string]string{"subdocument": "subdocument", "script": "script", "stylesheet": "stylesheet", "image": "image", "object": "object",
@@ -263,7 +270,7 @@ func psConfig(m map[string]string) (blocked []string, docExc bool) {
 	return blocked, m["docexc"] == "1"
 }
 
-func (e *psEnv) script(c *psScript) (status int, hasSelector bool, err error) {
+func (e *psEnv) script(c *psScript) (status int, hides psHides, err error) {
 	q := url.Values{}
 	switch c.Hostname {
 	case "one":
@@ -277,8 +284,10 @@ func (e *psEnv) script(c *psScript) (status int, hasSelector bool, err error) {
 		q.Add("option", "0")
 	case "garbage":
 		q.Add("option", "seven")
-	case "opt":
-		q.Add("option", "7")
+	default:
+		if len(c.Option) == 2 && c.Option[0] == 'o' {
+			q.Add("option", c.Option[1:])
+		}
 	}
 	switch c.Ts {
 	case "zero":
@@ -290,7 +299,7 @@ func (e *psEnv) script(c *psScript) (status int, hasSelector bool, err error) {
 	}
 	r, err := http.NewRequest(c.Method, "http://injections.adguard.org/content-script.js?"+q.Encode(), nil)
 	if err != nil {
-		return 0, false, err
+		return 0, psHides{}, err
 	}
 	if c.Ims {
 		r.Header.Set("If-Modified-Since", "Wed, 01 Jan 2010 01:00:00 GMT")
@@ -305,7 +314,7 @@ func (e *psEnv) script(c *psScript) (status int, hasSelector bool, err error) {
 		// a connection the proxy closed after its previous answer: POST is not retried by the transport itself
 		e.client.CloseIdleConnections()
 		if resp, err = e.client.Do(r); err != nil {
-			return 0, false, err
+			return 0, psHides{}, err
 		}
 	}
 	b, _ := io.ReadAll(resp.Body)
@@ -314,15 +323,15 @@ func (e *psEnv) script(c *psScript) (status int, hasSelector bool, err error) {
 	if ce := resp.Header.Get("Content-Encoding"); ce == "gzip" {
 		zr, err := gzip.NewReader(bytes.NewReader(b))
 		if err != nil {
-			return resp.StatusCode, false, nil // labelled gzip, but it is not
+			return resp.StatusCode, psHides{}, nil // labelled gzip, but it is not
 		}
 		if b, err = io.ReadAll(zr); err != nil {
-			return resp.StatusCode, false, nil
+			return resp.StatusCode, psHides{}, nil
 		}
 	} else if ce != "" {
-		return resp.StatusCode, false, nil
+		return resp.StatusCode, psHides{}, nil
 	}
-	return resp.StatusCode, bytes.Contains(b, []byte(".ad-banner")), nil
+	return resp.StatusCode, psHides{Specific: bytes.Contains(b, []byte(".ad-banner")), Generic: bytes.Contains(b, []byte(".generic-ad"))}, nil
 }
 
 func cmdReplaySession(args []string) error {
@@ -356,13 +365,17 @@ func cmdReplaySession(args []string) error {
 			scripts++
 			evals++
 			for zi, e := range []*psEnv{env, envZ} {
-				st, sel, err := e.script(c.C)
+				st, hides, err := e.script(c.C)
 				if err != nil {
 					return fmt.Errorf("content script request %+v: %v", *c.C, err)
 				}
-				if st != c.Status || (st == 200) != sel {
+				want := psHides{}
+				if c.Hides != nil && c.Status == 200 {
+					want = *c.Hides
+				}
+				if st != c.Status || hides != want {
 					mism++
-					out.write(map[string]any{"entry": "content-script endpoint", "case": c, "expected": c.Status, "got": st, "selector_in_body": sel,
+					out.write(map[string]any{"entry": "content-script endpoint", "case": c, "expected": fmt.Sprintf("%d hiding %+v", c.Status, want), "got": fmt.Sprintf("%d hiding %+v", st, hides),
 						"server_compresses": zi == 1})
 				}
 			}
